@@ -2,6 +2,9 @@ package main
 
 import (
 	"go/ast"
+	"go/token"
+	"os"
+	"path/filepath"
 	"strings"
 )
 
@@ -18,5 +21,114 @@ func concFacts(listFiles []*ast.File) string {
 		b.WriteString("  (" + lq(m) + ", " + methodSk(listFiles, "gcset", m) + ")" + sep + "\n")
 	}
 	b.WriteString("]\n\n")
+	b.WriteString(prefFacts())
 	return b.String()
+}
+
+// prefFacts (C20, seventh round): syslog.Pref (syslog/log.go) — what it does with the process-wide prefix cache. Calls through
+// the package-level variable `prefCache` as `.call "prefCache.<Method>"`, every assignment that is not to a local variable of
+// the function (a field, a dereference, an element, a package-level variable) as `.write "<lhs>"`, with the nesting.
+func prefFacts() string {
+	var files []*ast.File
+	if len(os.Args) > 1 {
+		files = parseDir(filepath.Join(os.Args[1], "syslog"))
+	}
+	fd := findFunc(files, "", "Pref")
+	sk := "[.call \"<function not found>\"]"
+	if fd != nil && fd.Body != nil {
+		locals := map[string]bool{}
+		for _, p := range fd.Type.Params.List {
+			for _, n := range p.Names {
+				locals[n.Name] = true
+			}
+		}
+		sk = "[" + strings.Join(prefSk(fd.Body.List, locals), ", ") + "]"
+	}
+	return "/-- syslog.Pref: calls on the package-level prefix cache and writes to anything but its own locals -/\ndef syslogPrefSkel : List Sk := " + sk + "\n\n"
+}
+
+func prefSk(stmts []ast.Stmt, locals map[string]bool) []string {
+	var out []string
+	calls := func(e ast.Node) {
+		if e == nil {
+			return
+		}
+		ast.Inspect(e, func(m ast.Node) bool {
+			switch x := m.(type) {
+			case *ast.FuncLit:
+				return false // the value function runs inside LoadOrStoreFn
+			case *ast.CallExpr:
+				if n := exprName(x.Fun); strings.HasPrefix(n, "prefCache.") {
+					out = append(out, ".call "+lq(n))
+				}
+			}
+			return true
+		})
+	}
+	for _, st := range stmts {
+		switch x := st.(type) {
+		case *ast.AssignStmt:
+			for _, r := range x.Rhs {
+				calls(r)
+			}
+			for _, l := range x.Lhs {
+				if id, ok := l.(*ast.Ident); ok {
+					if x.Tok == token.DEFINE {
+						locals[id.Name] = true
+					} else if id.Name != "_" && !locals[id.Name] {
+						out = append(out, ".write "+lq(id.Name))
+					}
+					continue
+				}
+				out = append(out, ".write "+lq(exprName(l)))
+			}
+		case *ast.IncDecStmt:
+			if id, ok := x.X.(*ast.Ident); !ok || !locals[id.Name] {
+				out = append(out, ".write "+lq(exprName(x.X)))
+			}
+		case *ast.DeclStmt:
+			if gd, ok := x.Decl.(*ast.GenDecl); ok {
+				for _, sp := range gd.Specs {
+					if vs, ok := sp.(*ast.ValueSpec); ok {
+						for _, n := range vs.Names {
+							locals[n.Name] = true
+						}
+						for _, v := range vs.Values {
+							calls(v)
+						}
+					}
+				}
+			}
+		case *ast.ExprStmt:
+			calls(x.X)
+		case *ast.ReturnStmt:
+			for _, r := range x.Results {
+				calls(r)
+			}
+			out = append(out, ".call \"return\"")
+		case *ast.IfStmt:
+			if x.Init != nil {
+				out = append(out, prefSk([]ast.Stmt{x.Init}, locals)...)
+			}
+			calls(x.Cond)
+			out = append(out, ".branch ["+strings.Join(prefSk(x.Body.List, locals), ", ")+"]")
+			if x.Else != nil {
+				out = append(out, ".branch ["+strings.Join(prefSk([]ast.Stmt{x.Else}, locals), ", ")+"]")
+			}
+		case *ast.BlockStmt:
+			out = append(out, prefSk(x.List, locals)...)
+		case *ast.ForStmt:
+			out = append(out, ".loop ["+strings.Join(prefSk(x.Body.List, locals), ", ")+"]")
+		case *ast.RangeStmt:
+			calls(x.X)
+			out = append(out, ".loop ["+strings.Join(prefSk(x.Body.List, locals), ", ")+"]")
+		case *ast.GoStmt:
+			out = append(out, ".spawn [.call "+lq(exprName(x.Call.Fun))+"]")
+		case *ast.DeferStmt:
+			out = append(out, ".deferCall "+lq(exprName(x.Call.Fun)))
+		default:
+			out = append(out, ".call \"<statement not understood>\"")
+		}
+	}
+	return out
 }
